@@ -309,7 +309,15 @@ def pools_engine(prop, tier, replay, t0):
         if os.path.exists(os.path.join(d, 'race.ndjson')):
             with open(trace, 'a') as f:
                 f.write(open(os.path.join(d, 'race.ndjson')).read())
-    consts = pool_consts(maxcalls=0, kinds='{}', maxobj=max(8, st.get('maxid', 8) + 2, 64 if prop == 'C08' else 0))
+    # the largest object id in the assembled trace (the race run's episodes are appended too)
+    maxid = 8
+    for ln in open(trace):
+        o = json.loads(ln)
+        if isinstance(o.get('id'), int):
+            maxid = max(maxid, o['id'])
+        for i in o.get('issues') or []:
+            maxid = max(maxid, i)
+    consts = pool_consts(maxcalls=0, kinds='{}', maxobj=maxid + 2)
     cfg = vlib.cfg_text(dict(consts, TraceFile='"trace.ndjson"', VerdictFile='"verdicts.ndjson"'), init='TraceInit', next_='TraceNext')
     res = vlib.run_tlc('Trace_Pools', cfg, workers=1, timeout=3600, files={'trace.ndjson': trace})
     vf = os.path.join(res['dir'], 'verdicts.ndjson')
